@@ -554,3 +554,94 @@ RECIPES += [
         if c < 8:''', '''        c = len(v[0])
         if c < 8:''', "rdgrids column count as len(v[0])"),
 ]
+
+RECIPES += [
+    ("C13", "neutral", [], B, '''    if start == length - 1:
+        return start
+    current_val = seq[start]
+    i = start + 1
+    while i < length and seq[i] == current_val + 1:
+        current_val += 1
+        i += 1
+    return i - 1
+''', '''    last = start
+    for i in range(start + 1, length):
+        if seq[i] != seq[i - 1] + 1:
+            break
+        last = i
+    return last
+''', "_find_sequence as a for loop with break"),
+    ("C13", "neutral", [], B, '''    if start == length - 1:
+        return start
+    current_val = seq[start]
+    i = start + 1
+    while i < length and seq[i] == current_val + 1:
+        current_val += 1
+        i += 1
+    return i - 1
+''', '''    i = start
+    while i + 1 < length and seq[i + 1] == seq[i] + 1:
+        i += 1
+    return i
+''', "_find_sequence without the early return"),
+    ("C13", "neutral", [], W, '''    v = range(length)
+    if so is not None:
+        v = v[so]
+    if postfunc:
+        if pfargs is None:
+            pfargs = []
+        for i in v:
+            curargs = getith(i, args, fncs)
+            s = postfunc(string.format(*curargs), *pfargs)
+            fout.write(s)
+    else:
+        for i in v:
+            curargs = getith(i, args, fncs)
+            fout.write(string.format(*curargs))
+''', '''    rows = range(length) if so is None else range(length)[so]
+    extra = [] if pfargs is None else pfargs
+    for i in rows:
+        line = string.format(*getith(i, args, fncs))
+        if postfunc:
+            line = postfunc(line, *extra)
+        fout.write(line)
+''', "_vecwrite with a single loop"),
+    ("C13", "neutral", [], B, '''        if end > start:
+            if len(fields) > init_length:
+                fields = init_func(fields)
+            fields.extend([seq[start], "THRU", seq[end]])
+            start = end + 1
+            fields = init_func(fields)
+        else:
+            fields.append(seq[start])
+            start += 1
+''', '''        if end == start:
+            fields += [seq[start]]
+            start = start + 1
+        else:
+            if len(fields) > init_length:
+                fields = init_func(fields)
+            fields += [seq[start], "THRU", seq[end]]
+            fields = init_func(fields)
+            start = end + 1
+''', "_wt_with_thru arms swapped, list +=, update after the flush"),
+]
+
+RECIPES += [
+    ("C13", "neutral", [], B, _NASINTS, '''    n = len(ints)
+    first = 10 - start
+    f.write("".join(f"{v:8d}" for v in ints[:first]) + "\\n")
+    for i in range(first, n, 8):
+        f.write(" " * 8 + "".join("{:8d}".format(v) for v in ints[i : i + 8]) + "\\n")
+''', "wtnasints lines joined from comprehensions"),
+    ("C13", "break", ["C13-R4"], B, _NASINTS, '''    n = len(ints)
+    first = 10 - start
+    f.write("".join(f"{v:8d}" for v in ints[:first]) + "\\n")
+    for i in range(first, n, 8):
+        f.write(" " * 8 + "".join("{:8d}".format(v) for v in ints[i : i + 9]) + "\\n")
+''', "wtnasints comprehension lines of 9 integers"),
+]
+
+RECIPES += [
+    ("C13", "break", ["C13-R3"], B, "        d[tid] = np.vstack([vec[8:-1:2], vec[9:-1:2]]).T\n", "        d[tid] = np.vstack([vec[8:-1:2], vec[9:1:2]]).T\n", "rdtabled1 ordinates cut at an absolute index"),
+]
